@@ -30,7 +30,8 @@ RULE += (
     "(RuntimeError expected). Unit refusals: 21 kinds of callable x called from a task / from its child under "
     ".asyncio(): the synchronous call raises RuntimeError and nothing of the callable runs. The refusals also "
     "run inside awaited children that are not converted generators (asyncio_fn coroutine, plain function "
-    "through async_call)."
+    "through async_call). Unit pairs: callables declared with sync_fn= (function, method, class- and "
+    "staticmethod) awaited under asyncio, alone and yielded, twice in a row."
 )
 ASSUMPTIONS = ["the quantifier is restricted to what resolve_awaitables claims to support (no batch items, ErrorFuture, lazy Future, result(), scoped values); with-blocks of AsyncContext subclasses are included, compared by outcome"]
 UNIT_TIMEOUT = {"quick": 240, "thorough": 2400}
